@@ -26,4 +26,5 @@ CHECK = GraphCheck(
     profile=("stage", "table", "gv"),
     classes=[(c, max(50, q // 3), max(500, t // 5), p) for c, q, t, p in GEN_CLASSES],
     with_real=True,
+    use_byteflow=True,
 )
